@@ -8,7 +8,15 @@ API every rejection reason.  Oracle: if the call raised (anything), the dump
 of the whole repository - namespaces, classes, instances (values and store
 keys), qualifier declarations, read through the public accessors of
 conn.cimrepository - is identical before and after.  Calls that do not raise
-are not judged.
+are not judged.  In addition, a WBEM operation (Create/Modify/DeleteClass,
+Set/DeleteQualifier, Create/Modify/DeleteInstance) that is called with
+arguments of the documented types and fails must fail with a pywbem.Error.
+
+Besides the rejection reasons, the single-object faults contain calls that
+are valid but unusual - association instances whose references or target
+namespace spell a namespace in another lexical case, a ModifyInstance that
+introduces a reference the stored association does not have yet - because
+"if it raises, nothing changed" must hold for them as well.
 """
 import os
 import shutil
@@ -31,14 +39,25 @@ META = dict(
     technique='runtime monitoring: fault enumeration (batch API x rejection '
               'reason x position k; single-object API x rejection reason) '
               'with a before/after dump oracle over the public repository '
-              'accessors; sys.monitoring reach counters',
+              'accessors and an exception-class oracle for WBEM operations; '
+              'sys.monitoring reach counters',
     level_text='For each sampled repository state every (API, rejection '
                'reason) pair of the tables in this module is executed; for '
                'the four batch APIs the invalid element is placed at every '
                'position k of a batch of length n (n cycles 1..4 quick, 1..8 '
                'thorough, over the cases). Positions x reasons are enumerated, '
                'starting states are sampled. A raising call must leave the '
-               'strict fingerprint of the whole repository unchanged.',
+               'strict fingerprint of the whole repository unchanged; a WBEM '
+               'operation with arguments of the documented types must not '
+               'raise anything but pywbem.Error. Single-object reasons include '
+               'association instances with missing / host-qualified / '
+               'namespace-less / NULL / re-spelled-namespace references, '
+               'cross-namespace associations present in one namespace only, '
+               'references newly introduced by ModifyInstance, embedded '
+               'instances of unknown / unrelated classes, and CIM_Namespace '
+               'instances (namespace provider) that exist, lack or have NULL '
+               'keys, have a wrong CreationClassName or name a second '
+               'Interop namespace.',
     level_note='Trusted: vf.fingerprint (strict structural fingerprint) and '
                'the dump built from conn.cimrepository.namespaces / '
                'get_*_store(ns).iter_values()/iter_names(). State outside the '
@@ -68,6 +87,11 @@ META = dict(
         'raised:CreateInstance', 'raised:ModifyInstance',
         'raised:DeleteInstance', 'raised:add_namespace',
         'raised:remove_namespace', 'raised:multins-association',
+        'raised:namespace-provider',
+        'raised:CreateInstance/cim_namespace-missing-key',
+        'raised:CreateInstance/cim_namespace-creationclassname-mismatch',
+        'raised:CreateInstance/embedded-instance-of-unknown-class',
+        'raised:ModifyInstance/assoc-new-reference-endpoint-missing',
         'MOFCompiler.compile_string', 'MainProvider.CreateClass',
         'InstanceWriteProvider.create_multi_namespace_instance'],
 )
